@@ -374,7 +374,9 @@ namespace xsimd
         }
 
         // gather
-        template <class T, class A, class U, detail::enable_sized_integral_t<T, 4> = 0, detail::enable_sized_integral_t<U, 4> = 0>
+        // The hardware sign-extends 32-bit indices, so only signed 32-bit index batches may take the native path:
+        // an unsigned index with its top bit set would address memory below src. Unsigned ones use the generic kernel.
+        template <class T, class A, class U, detail::enable_sized_integral_t<T, 4> = 0, detail::enable_sized_signed_t<U, 4> = 0>
         XSIMD_INLINE batch<T, A> gather(batch<T, A> const&, T const* src, batch<U, A> const& index,
                                         kernel::requires_arch<avx2>) noexcept
         {
@@ -391,7 +393,7 @@ namespace xsimd
         }
 
         template <class A, class U,
-                  detail::enable_sized_integral_t<U, 4> = 0>
+                  detail::enable_sized_signed_t<U, 4> = 0>
         XSIMD_INLINE batch<float, A> gather(batch<float, A> const&, float const* src,
                                             batch<U, A> const& index,
                                             kernel::requires_arch<avx2>) noexcept
@@ -410,7 +412,7 @@ namespace xsimd
         }
 
         // gather: handmade conversions
-        template <class A, class V, detail::enable_sized_integral_t<V, 4> = 0>
+        template <class A, class V, detail::enable_sized_signed_t<V, 4> = 0>
         XSIMD_INLINE batch<float, A> gather(batch<float, A> const&, double const* src,
                                             batch<V, A> const& index,
                                             requires_arch<avx2>) noexcept
@@ -420,7 +422,7 @@ namespace xsimd
             return detail::merge_sse(_mm256_cvtpd_ps(low.data), _mm256_cvtpd_ps(high.data));
         }
 
-        template <class A, class V, detail::enable_sized_integral_t<V, 4> = 0>
+        template <class A, class V, detail::enable_sized_signed_t<V, 4> = 0>
         XSIMD_INLINE batch<int32_t, A> gather(batch<int32_t, A> const&, double const* src,
                                               batch<V, A> const& index,
                                               requires_arch<avx2>) noexcept
